@@ -37,7 +37,7 @@ def run(pid):
     drv = vlib.build_harness()
     jobfile = os.path.join(wd, "c10job.json")
     with open(jobfile, "w") as f:
-        json.dump(dict(cells=todo, seed=vlib.seed(), flips=8 if tr == "quick" else 300, workers=14), f)
+        json.dump(dict(cells=todo, seed=vlib.seed(), flips=8 if tr == "quick" else 3000, workers=14), f)
     outfile = os.path.join(wd, "c10.ndjson")
     rc, _, err = vlib.run_driver(drv, ["c10"], stdin_path=jobfile, stdout_path=outfile, timeout=3000)
     if rc != 0:
